@@ -298,8 +298,14 @@ func (r *Redirect) parseAndClearFlashMessages() {
 	// parse flash messages
 	cookieValue := r.c.Cookies(FlashCookieName)
 
+	// The slice is recycled with the context and the decoder re-uses its elements:
+	// drop what a previous request left behind, also when decoding fails.
+	clear(r.c.flashMessages[:cap(r.c.flashMessages)])
+
 	_, err := r.c.flashMessages.UnmarshalMsg(r.c.app.getBytes(cookieValue))
 	if err != nil {
+		clear(r.c.flashMessages[:cap(r.c.flashMessages)])
+		r.c.flashMessages = r.c.flashMessages[:0]
 		return
 	}
 
